@@ -93,6 +93,15 @@ fn check_logs(inst: &mut Inst, world: &World, topic_len: usize) -> Vec<(String, 
     for w in 1..=6u64 {
         ranges.push((Some(h.saturating_sub(w)), Some(h)));
     }
+    // ranges that end below the head (the block after the range exists and must not leak in)
+    if h >= 1 {
+        ranges.push((Some(h - 1), Some(h - 1)));
+        ranges.push((Some(0), Some((h - 1).min(5))));
+    }
+    if h >= 2 {
+        ranges.push((Some(h - 2), Some(h - 1)));
+        ranges.push((Some(h - 2), Some(h - 2)));
+    }
     ranges.push((Some(0), Some(5)));
     ranges.push((Some(0), Some(6)));
     ranges.push((Some(h), Some(h + 3)));
